@@ -333,6 +333,23 @@ def updateBest (prev : Option (Member X E)) (members : List (Member X E)) : Opti
   | none, [] => none
   | none, m :: ms => some (scanBest m (m :: ms))
 
+/-- what the stored `_bestSolver` is when the NEXT reduction starts (step-wise modes: `__update_bestSolver` runs again
+over the same members after every ensemble `Step`, and after a `Solve` that continues them).  With an in-process map
+(`live = true`) the map hands back the SAME objects, so the stored best IS the member in its slot, with the values that
+member has now; with a pickling / process map (`live = false`) `__update_allSolvers` replaces every slot by the returned
+copy (`self._allSolvers[lr] = _solver`, l.453) and the stored best is the OLD object - a stale copy of a member. -/
+def refreshPrev (live : Bool) (p : Member X E) (ms : List (Member X E)) : Member X E :=
+  if live = true then (ms.find? fun m => m.id == p.id).getD p else p
+
+/-- the reductions of a step-wise run, one per ensemble `Step` / `Solve` over the same slots, with `_bestSolver` threaded
+from one to the next exactly as the code does (l.455-468: `if self._bestSolver is None: self._bestSolver = self._allSolvers[0]`,
+then the scan of ALL members against the stored best's energy) -/
+def reduceSeq (live : Bool) : Option (Member X E) → List (List (Member X E)) → List (Option (Member X E))
+  | _, [] => []
+  | prev, ms :: rest =>
+    updateBest (prev.map fun p => refreshPrev live p ms) ms ::
+      reduceSeq live (updateBest (prev.map fun p => refreshPrev live p ms) ms) rest
+
 /-- `_all_evals` / `_total_evals` (l.148-166) -/
 def allEvals (members : List (Member X E)) : List Nat := members.map (·.evals)
 def totalEvals (members : List (Member X E)) : Nat := (allEvals members).foldl (· + ·) 0
